@@ -13,6 +13,7 @@ one operator: whichever is built last serves both.  So the name has to be an inj
 Parameters that are not part of the formula are listed in EXEMPT with the reason.
 """
 import ast
+import copy
 
 from sa import dispatch as D
 from sa.index import AnalysisError, ClassInfo
@@ -154,9 +155,33 @@ def check(ix, rep, label, only_fields=None, rule='R-NAME'):
         if is_timed:
             for fld in INTERVAL_FIELDS:
                 required.append(('field', fld))
+        # `self.name = A if c else B` is the two assignments of `if c: self.name = A / else: self.name = B`
+        expanded = []
+        for st in assigns:
+            if isinstance(st.value, ast.IfExp):
+                for val, in_body in ((st.value.body, True), (st.value.orelse, False)):
+                    cp = ast.copy_location(ast.Assign(targets=st.targets, value=val), st)
+                    cp._ifexp_test = (st.value.test, in_body)
+                    expanded.append(cp)
+            else:
+                expanded.append(st)
+        assigns = expanded
+        # locals bound once to a string-building expression are part of the name they are spliced into
+        local_defs = {}
+        for q in ast.walk(init.node):
+            if isinstance(q, ast.Assign) and len(q.targets) == 1 and isinstance(q.targets[0], ast.Name):
+                local_defs.setdefault(q.targets[0].id, []).append(q.value)
+
+        class _Inline(ast.NodeTransformer):
+            def visit_Name(self, n_):
+                if isinstance(n_.ctx, ast.Load) and n_.id not in params and len(local_defs.get(n_.id, [])) == 1 \
+                        and isinstance(local_defs[n_.id][0], (ast.BinOp, ast.JoinedStr, ast.Call)):
+                    return ast.copy_location(self.visit(copy.deepcopy(local_defs[n_.id][0])), n_)
+                return n_
         for st in assigns:
             try:
-                parts = _concat(st.value)
+                st_value = _Inline().visit(copy.deepcopy(st.value))
+                parts = _concat(st_value)
             except AnalysisError as e:
                 raise AnalysisError('%s: %s' % (init.where, e))
             got = {}
@@ -185,6 +210,8 @@ def check(ix, rep, label, only_fields=None, rule='R-NAME'):
             # a branch that leaves a parameter out is fine when the branch condition says the parameter is empty (Variable.field)
             cond_absent = set()
             par = _parent_if(init.node, st)
+            if getattr(st, '_ifexp_test', None) is not None:
+                par = st._ifexp_test
             if par is not None:
                 t, in_body = par
                 for x in ast.walk(t):
